@@ -33,8 +33,8 @@ CHECKS = {
          "text": "the links performed by the upward/downward passes are proved independent of the grouping (upward_links); counters and stored particles likewise; for all operators the same input is built under 8-11 groupings (incl. automatic and TBFMM_BLOCK_SIZE) and the multiset of elementary interactions and all values must coincide with each other and with the grouping-free spec"},
  "C09": {"category": "proof", "design_ref": "DESIGN.md 6 C09", "technique": P, "note": BASE + "; OpenMP Tsm executor under the mock runtime",
          "text": "same theorems as C01 applied to the source and target trees; three-way differential for the target/source executors (sequential and OpenMP): calls = model = spec, values = closed forms, every target has every source exactly once, source tree owns no result storage; structure and lookup clauses evaluated on both trees"},
- "C10": {"category": "translation_validation", "design_ref": "DESIGN.md 6 C10", "technique": "executable Lean model of the top tree + differential + geometric image-coverage oracle on the real calls", "note": BASE + "; the all-n coverage theorem is not yet proved",
-         "text": "the top tree's calls (levels, windows, child codes) and the final values agree with the Lean model for n=-1..5, D=1..4, single-tree and target/source; the set of image boxes reached is reconstructed from the library's own calls and must equal the reported interval exactly once each; counts per particle = repetitions^D"},
+ "C10": {"category": "proof", "design_ref": "DESIGN.md 6 C10", "technique": P + "; geometric image-coverage oracle on the real top-tree calls", "note": BASE + "; the regular periodic pass is C01 with periodic lists",
+         "text": "for every n >= 1 an image offset lies in the reported interval iff it is reached by the regular pass or by the transfer of exactly one level of the top tree (C10_cover, C10_disjoint, C10_offset_unique; n = 0 separately); the model's top tree performs one transfer per level with the windows the theorem speaks about (topTree_transfers); calls and values agree with the library for n=-1..5, D=1..4, single-tree and target/source; the set of image boxes reached is also reconstructed from the library's own calls"},
  "C11": {"category": "proof", "design_ref": "DESIGN.md 6 C11", "technique": P, "note": BASE + "; Hilbert ordering excluded (known finding)",
          "text": "Morton algebra proved for any dimension: encode/decode bijection, parent = coordinate halving, child code = low bits; list builders, position codes and per-group builders are compared exhaustively on all cells of small levels (D=1..4, periodic and not) and against an independent geometric oracle; random indices up to 62 bits"},
  "C12": {"category": "proof", "design_ref": "DESIGN.md 6 C12", "technique": P, "note": BASE,
